@@ -332,7 +332,7 @@ def run(ctx):
                 bias = early and salt != "nopolicy" and r.random() < 0.6
                 pol = fault_policy(spec, salt, taken, ctx, bias) if salt != "nopolicy" else None
                 try:
-                    d, info = h1case.execute(spec, opts, r, client_seg=r.choice(["whole", "random", "bytes"]) if len(stream) < 1500 else "random", server_seg="bytes" if bias else r.choice(["whole", "random"]), schedule="random" if bias else sched, extra_policy=pol, client_eof=r.random() < 0.2, early_origin=early, **kw)
+                    d, info = h1case.execute(spec, opts, r, client_seg=r.choice(["whole", "random", "bytes"]) if len(stream) < 1500 else "random", server_seg=r.choice(["bytes", "whole", "random"]) if bias else r.choice(["whole", "random"]), schedule="random" if bias else sched, extra_policy=pol, client_eof=r.random() < 0.2, early_origin=early, **kw)
                 except Exception as e:
                     ctx.violation("harness-or-layer-crash", {"stream": stream, "fault": (kind, arg), "exc": repr(e)})
                     continue
